@@ -153,7 +153,19 @@ pub fn record_c01(a: &Args) -> usize {
             emit(&mut out, frame_event(0, 0, &vec![b; len], false));
         }
     }
-    for &len in &[0usize, 1, 254, 255, 256, 257, 258, 1000, 65535, 65536, 70000] {
+    // over-long lines decode to an error, never to a frame with more than 255 data bytes
+    for count in [256usize, 257, 511, 512, 768] {
+        let mut payload = vec![(count % 256) as u8, 0x12, 0x34, 0x00];
+        payload.extend((0..count).map(|i| (i * 5) as u8));
+        let sum = payload.iter().fold(0u8, |a, &b| a.wrapping_add(b));
+        payload.push(0u8.wrapping_sub(sum));
+        let mut t = vec![b':'];
+        for b in &payload {
+            t.extend_from_slice(format!("{:02X}", b).as_bytes());
+        }
+        emit(&mut out, decode_event(&t));
+    }
+    for &len in &[0usize, 1, 254, 255, 256, 257, 258, 511, 512, 1000, 65535, 65536, 65537, 65791, 65792, 70000, 131072, 131077, (1 << 20) + 44, 1 << 24] {
         emit(&mut out, trynew_event(len, true));
         emit(&mut out, trynew_event(len, false));
     }
@@ -410,6 +422,21 @@ pub fn record_c03(a: &Args) -> usize {
                 n += 3;
             }
         }
+    }
+    // over-long lines: more than 255 data pairs whose length field is the count modulo 256 and whose checksum is right
+    for count in [256usize, 257, 300, 511, 512, 513, 1000] {
+        let mut payload = vec![(count % 256) as u8, 0x00, 0x02, 0x00];
+        payload.extend((0..count).map(|i| (i * 3) as u8));
+        let sum = payload.iter().fold(0u8, |a, &b| a.wrapping_add(b));
+        payload.push(0u8.wrapping_sub(sum));
+        let mut t = vec![b':'];
+        for b in &payload {
+            t.extend_from_slice(format!("{:02X}", b).as_bytes());
+        }
+        out.emit(decode_event(&t));
+        t.extend_from_slice(b"\r\n");
+        out.emit(decode_event(&t));
+        n += 2;
     }
     // multi-byte UTF-8 look-alikes of digits and hex letters in a digit position of an otherwise well-formed frame
     let lookalikes: Vec<&[u8]> = vec![
